@@ -756,7 +756,7 @@ class Interp:
       if attr == 'T':
         return base.transpose()
       if attr == 'dtype':
-        return Opaque('dtype')
+        return consteval.Ext('dtype.' + base.kind) if base.kind in ('i', 'f') else Opaque('dtype')
       return ('method', base, attr)
     if isinstance(base, Ext):
       return Ext(f'{base.name}.{attr}')
@@ -1130,6 +1130,8 @@ class Interp:
         names.append(repr(x))
     if isinstance(v, Obj):
       return v.cls in names
+    if isinstance(v, NdArr):
+      return any(n.split('.')[-1] == 'ndarray' for n in names)
     if v is None:
       return any(n in ('NoneType', 'type(None)') for n in names)
     if isinstance(v, EnumVal):
